@@ -48,6 +48,22 @@ theorem wf_run {s : State K} (hwf : WF s) (ops : List (Op K)) : WF (run G s ops)
 
 theorem reachable_wf (ops : List (Op K)) : WF (run G ({} : State K) ops) := wf_run wf_empty ops
 
+theorem inv_after {s : State K} (hi : Inv G s) (op : Op K) : Inv G (after G s op) := by
+  unfold after; split
+  · rename_i s' h; exact inv_step G hi h
+  · exact hi
+
+/-- **full invariant, all histories**: allocation invariant, every padded array consists of
+`ncomp` blocks of one padded grid, members of collections are data fields on the collection's
+grid -/
+theorem inv_run {s : State K} (hi : Inv G s) (ops : List (Op K)) : Inv G (run G s ops) := by
+  induction ops generalizing s with
+  | nil => exact hi
+  | cons op ops ih => rw [run_cons]; exact ih (inv_after hi op)
+
+theorem reachable_inv (ops : List (Op K)) : Inv G (run G ({} : State K) ops) :=
+  inv_run (inv_empty G) ops
+
 /-! ### frame -/
 
 /-- **frame**: an operation changes no cell of an existing buffer outside its footprint
@@ -265,6 +281,116 @@ theorem member_write_seen_in_collection {s s' : State K} (hwf : WF s) {c : Nat} 
   · intro h
     exact write_visible_through_alias hwf hoc hom (by omega) hp hv.1.symm (by omega) v h
 
+theorem sum_map_mul_right (l : List Nat) (f : Nat → Nat) (n : Nat) :
+    (l.map (fun m => f m * n)).sum = (l.map f).sum * n := by
+  induction l with
+  | nil => simp
+  | cons x xs ih => simp only [List.map_cons, List.sum_cons, ih, Nat.add_mul]
+
+/-- number of components of the object with id `m` -/
+def ncompOf (s : State K) (m : Nat) : Nat :=
+  match s.objs[m]? with
+  | some o => o.ncomp
+  | none => 0
+
+/-- **collection_layout, in component slots** (every reachable state): in a linked collection on
+a grid with `n` padded cells, member `k` looks at the `ncomp_k * n` cells that start at component
+slot `ncomp_0 + ... + ncomp_{k-1}` of the collection buffer (fields in order), and the
+collection has `ncomp = Σ ncomp_j` slots. -/
+theorem collection_layout_slots {s : State K} (hi : Inv G s) {c : Nat} (hl : Linked s c) {oc : Obj}
+    (hoc : s.objs[c]? = some oc) (hc : oc.cls = .coll) :
+    ∃ gr : Grid, G[oc.grid]? = some gr ∧ oc.view.len = oc.ncomp * gr.mask.length ∧
+      ∀ (k m : Nat), oc.members[k]? = some m → ∃ om : Obj, s.objs[m]? = some om ∧
+        om.view = ⟨oc.view.buf,
+          oc.view.off + ((oc.members.take k).map (ncompOf s)).sum * gr.mask.length,
+          om.ncomp * gr.mask.length⟩ := by
+  obtain ⟨oc', hoc', lens, h1, h2, h3⟩ := hl
+  rw [hoc] at hoc'; cases hoc'
+  rcases hi.shaped c oc hoc with hr | ⟨gr, hgr, hlen⟩
+  · rw [hc] at hr; cases hr
+  refine ⟨gr, hgr, hlen, ?_⟩
+  -- every block has `ncomp * n` cells
+  have hlens : lens = oc.members.map (fun m => ncompOf s m * gr.mask.length) := by
+    apply List.ext_getElem?
+    intro k
+    rcases Nat.lt_or_ge k oc.members.length with hk | hk
+    · obtain ⟨om, g1, g2, _⟩ := h3 k oc.members[k] (List.getElem?_eq_getElem hk)
+      obtain ⟨om', e1, e2, _, e4⟩ := hi.coll c oc hoc oc.members[k] (List.getElem_mem hk)
+      rw [g1] at e1; cases e1
+      rcases hi.shaped _ om g1 with hr | ⟨gr', hgr', hlen'⟩
+      · exact absurd hr e4
+      rw [e2, hgr] at hgr'; cases hgr'
+      rw [g2, List.getElem?_map, List.getElem?_eq_getElem hk]
+      simp only [Option.map_some, ncompOf, g1, hlen']
+    · rw [List.getElem?_eq_none (by omega), List.getElem?_eq_none (by simp; omega)]
+  intro k m hk
+  obtain ⟨om, g1, g2, g3⟩ := h3 k m hk
+  refine ⟨om, g1, ?_⟩
+  have hm : m ∈ oc.members := List.mem_iff_getElem?.mpr ⟨k, hk⟩
+  obtain ⟨om', e1, e2, _, e4⟩ := hi.coll c oc hoc m hm
+  rw [g1] at e1; cases e1
+  rcases hi.shaped _ om g1 with hr | ⟨gr', hgr', hlen'⟩
+  · exact absurd hr e4
+  rw [e2, hgr] at hgr'; cases hgr'
+  rw [g3, hlen']
+  congr 2
+  rw [hlens, ← List.map_take]
+  exact sum_map_mul_right _ _ _
+
+/-- **component views**: `vector[c]` / `tensor[i, j]` (`c = i*dim + j`, row-major) returns a new
+handle that looks at block `c` of the padded array of the field: `n` cells starting `c * n`
+cells into the field's view; the field itself is untouched. -/
+theorem component_view {s s' : State K} (hi : Inv G s) {h c : Nat}
+    (hs : step G s (.component h c) = .ok s') :
+    ∃ (o : Obj) (gr : Grid), s.objs[h]? = some o ∧ G[o.grid]? = some gr ∧ c < o.ncomp ∧
+      o.view.len = o.ncomp * gr.mask.length ∧ s'.objs[h]? = some o ∧ s'.store = s.store ∧
+      ∃ oc : Obj, s'.objs[s.objs.length]? = some oc ∧ oc.cls = .scalar ∧
+        oc.view = ⟨o.view.buf, o.view.off + c * gr.mask.length, gr.mask.length⟩ := by
+  simp only [step] at hs
+  split at hs
+  · cases hs
+  rename_i o ho
+  split at hs
+  · rename_i hcond
+    cases hs
+    simp only [Bool.and_eq_true, decide_eq_true_eq, Bool.or_eq_true, beq_iff_eq] at hcond
+    rcases hi.shaped h o (getObj_ok ho) with hr | ⟨gr, hgr, hlen⟩
+    · rcases hcond.1 with e | e <;> rw [e] at hr <;> cases hr
+    have hn : o.view.len / o.ncomp = gr.mask.length := by
+      rw [hlen, Nat.mul_div_cancel_left _ (by omega : 0 < o.ncomp)]
+    refine ⟨o, gr, getObj_ok ho, hgr, hcond.2, hlen, ?_, rfl, compObj o c, ?_, rfl, ?_⟩
+    · simp only [State.pushObj]
+      rw [List.getElem?_append_left (lt_length_of_getElem? (getObj_ok ho))]; exact getObj_ok ho
+    · simp [State.pushObj]
+    · simp only [compObj, hn]
+  · cases hs
+
+/-- a marker written through a component view is read through the field at the component's
+block, and vice versa -/
+theorem component_write_seen_in_field {s s' s'' : State K} (hi : Inv G s) {h c : Nat}
+    (hs : step G s (.component h c) = .ok s') :
+    ∃ n : Nat, ∀ p, p < n → ∀ v : K,
+      (step G s' (.writeCell s.objs.length p v) = .ok s'' →
+        (s''.denote h)[c * n + p]? = some (some v)) ∧
+      (step G s' (.writeCell h (c * n + p) v) = .ok s'' →
+        (s''.denote s.objs.length)[p]? = some (some v)) := by
+  obtain ⟨o, gr, ho, _, hc, hlen, ho', _, oc, hoc, _, hv⟩ := component_view hi hs
+  have hwf' := wf_step hi.wf hs
+  refine ⟨gr.mask.length, ?_⟩
+  intro p hp v
+  have hblock : c * gr.mask.length + gr.mask.length ≤ o.view.len := by
+    rw [hlen]
+    have : (c + 1) * gr.mask.length ≤ o.ncomp * gr.mask.length := Nat.mul_le_mul_right _ hc
+    rw [Nat.succ_mul] at this; exact this
+  have hl : oc.view.len = gr.mask.length := by rw [hv]
+  have hb : oc.view.buf = o.view.buf := by rw [hv]
+  have hoff : oc.view.off = o.view.off + c * gr.mask.length := by rw [hv]
+  constructor
+  · intro hw
+    exact write_visible_through_alias hwf' hoc ho' (by omega) (by omega) hb (by omega) v hw
+  · intro hw
+    exact write_visible_through_alias hwf' ho' hoc (by omega) (by omega) hb.symm (by omega) v hw
+
 /-! ### fresh results -/
 
 /-- **copy_is_fresh** (allocation invariant: fresh ids exceed all live ids): every object created
@@ -359,18 +485,18 @@ theorem copy_never_aliases {s s' : State K} (hwf : WF s) {h : Nat} {dt : Option 
 
 /-- **slice_append_arith_operator_results_fresh**: the same for collection slices, `append`,
 `FieldCollection(..., copy_fields=True)`, negation and binary arithmetic, freshly constructed
-fields (which is how operator results, `to_scalar`, ... are built), stored frames and fields
-read back from a storage. -/
+fields (which is how operator results, `to_scalar`, ... are built), stored frames, fields
+read back from a storage, deep copies and unpickled objects. -/
 theorem slice_append_arith_operator_results_fresh {s s' : State K} {op : Op K} (hwf : WF s)
     (hop : (∃ c idx, op = .slice c idx) ∨ (∃ c hs, op = .append c hs) ∨
       (∃ hs dt, op = .mkColl hs true dt) ∨ (∃ h, op = .neg h) ∨ (∃ o a b, op = .binop o a b) ∨
       (∃ c g dt x i, op = .mkField c g dt x i) ∨ (∃ h, op = .storeFrame h) ∨
-      (∃ t f, op = .loadFrame t f))
+      (∃ t f, op = .loadFrame t f) ∨ (∃ h, op = .deepcopy h))
     (hs : step G s op = .ok s') {i j : Nat} (hi : s.objs.length ≤ i) (hi' : i < s'.objs.length)
     (hj : j < s.objs.length) (ops : List (Op K)) : aliases (run G s' ops) i j = false := by
   have hc : copying op := by
     rcases hop with ⟨_, _, rfl⟩ | ⟨_, _, rfl⟩ | ⟨_, _, rfl⟩ | ⟨_, rfl⟩ | ⟨_, _, _, rfl⟩ |
-      ⟨_, _, _, _, _, rfl⟩ | ⟨_, rfl⟩ | ⟨_, _, rfl⟩ <;> simp [copying]
+      ⟨_, _, _, _, _, rfl⟩ | ⟨_, rfl⟩ | ⟨_, _, rfl⟩ | ⟨_, rfl⟩ <;> simp [copying]
   have hl := (step_spec G hwf hs).1.len_le
   exact disjoint_forever (wf_step hwf hs) (by omega) hi' (by omega)
     (fresh_results hwf hs hc hi hi' hj).1 ops
@@ -390,32 +516,6 @@ theorem binary_op_pure {s s' : State K} (hwf : WF s) {bop : BinOp} {a : Nat} {b 
   obtain ⟨o, ho⟩ : ∃ o, s.objs[h]? = some o := ⟨_, List.getElem?_eq_getElem hh⟩
   exact frame_handle hwf hs ho (by simp [moved]) (fun _ _ _ => by simp [foot])
 
-theorem inplace_eq {s s' : State K} {bop : BinOp} {a : Nat} {b : Operand K}
-    (hs : step G s (.inplace bop a b) = .ok s') :
-    ∃ (oa : Obj) (g : Nat → Option K → Option K), s.objs[a]? = some oa ∧
-      s' = s.writeSel oa.view (validSel G oa) g := by
-  simp only [step, inplace] at hs
-  split at hs
-  · cases hs
-  rename_i oa hoa
-  split at hs
-  · cases hs
-  split at hs
-  · split at hs
-    · cases hs
-    · cases hs; exact ⟨oa, _, getObj_ok hoa, rfl⟩
-  · split at hs
-    · cases hs
-    split at hs
-    · cases hs
-    split at hs
-    · cases hs
-    split at hs
-    · cases hs
-    split at hs
-    · cases hs
-    cases hs; exact ⟨oa, _, getObj_ok hoa, rfl⟩
-
 /-- **inplace_touches_only_valid_cells**: `a <op>= b` creates nothing, re-links nothing, and the
 only cells whose content may change are valid cells of `a`: its ghost cells and every cell of
 every other buffer keep their content; a handle that contains no valid cell of `a` reads the
@@ -428,7 +528,7 @@ theorem inplace_touches_only_valid_cells {s s' : State K} (hwf : WF s) {bop : Bi
         s'.store.read oa.view.buf i = s.store.read oa.view.buf i) ∧
       (∀ (h : Nat) (o : Obj), s.objs[h]? = some o →
         (∀ i, o.view.Mem o.view.buf i → ¬ oa.validCell G o.view.buf i) → s'.denote h = s.denote h) := by
-  obtain ⟨oa, g, hoa, rfl⟩ := inplace_eq hs
+  obtain ⟨oa, g, hoa, rfl⟩ := inplace_eq' hs
   have hcell : ∀ b' i, ¬ oa.validCell G b' i →
       (s.writeSel oa.view (validSel G oa) g).store.read b' i = s.store.read b' i := by
     intro b' i hn
@@ -506,6 +606,14 @@ from its creation on and no later operation of the history steals a member -/
 example : NoSteal exGrid 2 (run exGrid {} (exOps.take 3)) (exOps.drop 3) := by
   simp only [NoSteal, exOps, List.drop, List.take, moved]
   simp
+/-- `copy.deepcopy` of the collection (handle 2): new member objects 8, 9 and collection 10, linked
+to each other, detached from the original -/
+example : aliases (run exGrid {} (exOps ++ [.deepcopy 2])) 8 10 = true ∧
+    aliases (run exGrid {} (exOps ++ [.deepcopy 2])) 9 10 = true ∧
+    aliases (run exGrid {} (exOps ++ [.deepcopy 2])) 10 2 = false ∧
+    aliases (run exGrid {} (exOps ++ [.deepcopy 2])) 8 0 = false ∧
+    (run exGrid {} (exOps ++ [.deepcopy 2])).denote 10 = (run exGrid {} exOps).denote 2 := by
+  decide +kernel
 /-- documented re-linking: handing member 0 to a second collection detaches it from the first -/
 example : aliases (run exGrid {} (exOps.take 3 ++ [.mkColl [0] false none])) 0 2 = false ∧
     aliases (run exGrid {} (exOps.take 3 ++ [.mkColl [0] false none])) 0 3 = true := by
